@@ -399,6 +399,56 @@ def g_containment(mode):
         fresh.close()
         for c in stalled:
             c.close()
+    # listed known finding (no communication timeout, the default): a peer that sends only part of a message and then just stays connected is waited for on the
+    # server's only loop thread (multiplex: every recv_stub; thread pool: the refusal handshake of a client that connected while the pool was full runs on the accept
+    # thread) - meanwhile nobody else is served.  Everything recovers the moment that peer goes away.
+    RUNS[0] += 1
+    with Running("multiplex", COMMTIMEOUT=0.0) as r:
+        r.daemon.register(Bad(), "bad")
+        witness = Raw(r.addr, timeout=0.6)
+        ok = witness.connect("bad")
+        silent = socket.create_connection(r.addr, timeout=2.0)
+        silent.sendall(b"PYRO")
+        time.sleep(0.1)
+        witness.invoke("bad", "ok", (), seq=7)
+        m = witness.reply()
+        stalled = ok is not None and m is None
+        silent.close()
+        if stalled:
+            witness.sock.settimeout(3.0)
+            m2 = witness.reply()
+            if m2 is None or m2.seq != 7:
+                fail(group="C05", server="multiplex", violated="the witness got no reply even after the silent peer had gone away")
+            if "C05-multiplex-silent-partial-message-stalls-the-loop" not in KNOWN:
+                KNOWN.append("C05-multiplex-silent-partial-message-stalls-the-loop")
+        witness.close()
+    RUNS[0] += 1
+    with Running("thread", COMMTIMEOUT=0.0, THREADPOOL_SIZE=2, THREADPOOL_SIZE_MIN=1) as r:
+        r.daemon.register(Bad(), "bad")
+        c1, c2 = Raw(r.addr, timeout=2.0), Raw(r.addr, timeout=2.0)
+        ok = c1.connect("bad") is not None and c2.connect("bad") is not None          # both workers busy
+        silent = socket.create_connection(r.addr, timeout=2.0)                        # connects while the pool is full: refused on the accept thread ...
+        silent.sendall(b"PYRO")                                                       # ... which first waits for its CONNECT message
+        time.sleep(0.2)
+        c1.close()                                                                    # a worker becomes free again
+        time.sleep(0.3)
+        late = Raw(r.addr, timeout=0.6)
+        ml = None
+        try:
+            ml = late.connect("bad")
+        except Exception:      # noqa
+            pass
+        stalled = ok and ml is None
+        silent.close()
+        if stalled:
+            late.sock.settimeout(3.0)
+            ml = late.reply()
+            if ml is None or ml.type != P.MSG_CONNECTOK:
+                fail(group="C05", server="thread", violated="a new client was not accepted even after the silent peer had gone away and a worker was free")
+            if "C05-threadpool-silent-peer-refused-on-the-accept-thread" not in KNOWN:
+                KNOWN.append("C05-threadpool-silent-peer-refused-on-the-accept-thread")
+        for c in (c2, late):
+            c.close()
     # several events in ONE select round of the multiplex server: its loop thread is parked inside a remote method while an established connection sends hostile bytes,
     # a new client connects, and a witness sends a request; when the loop resumes it finds all of them ready at once.  Everybody but the hostile peer is served.
     gate = threading.Event()
@@ -707,6 +757,51 @@ def g_context(mode):
         if m is not None and "INNR" in anns(m) and "C12-nested-call-forwards-inner-reply-annotations" not in KNOWN:
             KNOWN.append("C12-nested-call-forwards-inner-reply-annotations")
         c.close()
+
+    # a served method that forwards a SerializedBlob to another object (the use the blob exists for: gateways / dispatchers): the request annotations it can read
+    # before and after that nested call are those of the request being served - and a later, ordinary call from that thread does not carry the blob's bookkeeping
+    @api.expose
+    class Backend(object):
+        def take(self, blob):
+            return "took %s" % (blob.info,)
+
+        def seen(self):
+            return sorted(current_context.annotations.keys())
+
+    @api.expose
+    class Gateway(object):
+        def __init__(self, uri):
+            self.uri = uri
+
+        def forward(self, what):
+            before = sorted(current_context.annotations.keys())
+            with client.Proxy(self.uri) as p:
+                p._pyroSerializer = "marshal"
+                p.take(client.SerializedBlob("info-" + what, [what]))
+                later = p.seen()
+            after = sorted(current_context.annotations.keys())
+            return [before, after, later]
+    with Running("thread", THREADPOOL_SIZE=4, THREADPOOL_SIZE_MIN=2) as r3:
+        backend_uri = r3.daemon.register(Backend(), "backend")
+        r3.daemon.register(Gateway(backend_uri), "gateway")
+        for sent in ({}, {"USER": b"mine"}):
+            RUNS[0] += 1
+            c = Raw(r3.addr)
+            c.connect("gateway")
+            c.invoke("gateway", "forward", ("x",), seq=4, annotations=sent)
+            m = c.reply()
+            got = c.value(m) if m is not None and m.type == P.MSG_RESULT and not (m.flags & P.FLAGS_EXCEPTION) else None
+            c.close()
+            if got is None:
+                fail(group="C12", scenario="served method forwards a SerializedBlob", violated="the gateway call failed: %r" % (m,))
+            before, after, later = [list(x) for x in got]
+            if before != sorted(sent) or after != sorted(sent):
+                fail(group="C12", scenario="served method forwards a SerializedBlob to another object", request_annotations=sorted(sent),
+                     violated="the request annotations the method reads changed while it ran: %r before the nested blob call, %r after it (the request carried %r)"
+                              % (before, after, sorted(sent)))
+            if "BLBI" in later:
+                fail(group="C12", scenario="an ordinary call following a blob call from the same thread", request_annotations=sorted(sent),
+                     violated="the ordinary call carried the blob bookkeeping annotation of the EARLIER call: the served method read request annotations %r" % (later,))
 
     for st in ("thread", "multiplex"):
         with Running(st, THREADPOOL_SIZE=1, THREADPOOL_SIZE_MIN=1) as r:
